@@ -189,7 +189,22 @@ func (s *Sched) pickOther(kind string, from *Task) *Task {
 // dependency, the library through a construct the instrumenter did not rewrite) runs
 // concurrently with the simulation, so its interleaving is not the simulator's choice.
 func (s *Sched) Unowned() bool {
-	return runtime.NumGoroutine() > s.baseGoroutines+len(s.Tasks)+2
+	return tooManyGoroutines(s.baseGoroutines + len(s.Tasks) + 2)
+}
+
+// tooManyGoroutines: runtime.NumGoroutine reads several counters without a lock and can be
+// off by a batch of free goroutine descriptors for a moment, so one sample above the limit
+// proves nothing; five samples in a row, a little apart, do.
+//
+//go:norace
+func tooManyGoroutines(limit int) bool {
+	for i := 0; i < 5; i++ {
+		if runtime.NumGoroutine() <= limit {
+			return false
+		}
+		time.Sleep(200 * time.Microsecond)
+	}
+	return true
 }
 
 func (s *Sched) Run(watchdog time.Duration) bool {
